@@ -10,7 +10,7 @@ import z3
 from vt.pyvc.termvc import Arr, lift, uf
 
 R = z3.RealSort()
-TOQITO_RET = {"trace_norm": R, "fidelity": R, "partial_transpose": Arr, "to_density_matrix": Arr, "is_ppt": z3.BoolSort(), "hilbert_schmidt_inner_product": R, "partial_trace": Arr, "purity": R}
+TOQITO_RET = {"is_positive_semidefinite": z3.BoolSort(), "trace_norm": R, "fidelity": R, "partial_transpose": Arr, "to_density_matrix": Arr, "is_ppt": z3.BoolSort(), "hilbert_schmidt_inner_product": R, "partial_trace": Arr, "purity": R}
 
 
 def pred(text, env):
@@ -38,6 +38,8 @@ class TermContract:
         self.env0 = dict(env)
         pc = [pred(t, env) if not t.startswith("not ") else z3.Not(pred(t[4:], env)) for t in self.requires]
         return env, pc
+
+    toqito_names = set(["is_positive_semidefinite", "is_ppt"])
 
     def callee(self, eng, name, full, args):
         if name in TOQITO_RET:
@@ -106,5 +108,13 @@ CONTRACTS = {
                  lambda e: uf("np.real", R, tr(uf("scipy.linalg.sqrtm", Arr, mm(mm(uf("scipy.linalg.sqrtm", Arr, e["rho"]), e["sigma"]), uf("scipy.linalg.sqrtm", Arr, e["rho"]))))),
                  "fidelity == Re Tr sqrt( sqrt(rho) sigma sqrt(rho) )  (root fidelity, as documented)"),
     "hilbert_schmidt_inner_product": ("toqito/state_metrics/hilbert_schmidt_inner_product.py", [("a_mat", "arr"), ("b_mat", "arr")], [], lambda e: tr(mm(uf("transpose", Arr, uf("conj", Arr, e["a_mat"])), e["b_mat"])), "<A, B> == Tr(A^dagger B)"),
+    "is_ppt": ("toqito/state_props/is_ppt.py", [("mat", "arr"), ("sys", "real"), ("dim", "arr"), ("tol", "real")], ["not dim is None", "not tol is None"],
+               lambda e: uf("toqito.is_positive_semidefinite", z3.BoolSort(), uf("toqito.partial_transpose[list1]", Arr, e["mat"], e["sys"] - 1, e["dim"]), e["tol"]),
+               "is_ppt(mat, sys, dim, tol) == is_positive_semidefinite(partial_transpose(mat, [sys - 1], dim), tol)  (sys is 1-indexed, partial_transpose 0-indexed)"),
+    "is_npt": ("toqito/state_props/is_npt.py", [("mat", "arr"), ("sys", "real"), ("dim", "arr"), ("tol", "real")], [],
+               lambda e: z3.Not(uf("toqito.is_ppt", z3.BoolSort(), e["mat"], e["sys"], e["dim"], e["tol"])), "is_npt == not is_ppt (same arguments)"),
+    "l1_norm_coherence": ("toqito/state_props/l1_norm_coherence.py", [("rho", "arr")], [],
+                          lambda e: uf("np.sum", R, uf("np.sum", R, uf("np.abs", Arr, uf("toqito.to_density_matrix", Arr, e["rho"])))) - tr(uf("toqito.to_density_matrix", Arr, e["rho"])),
+                          "l1_norm_coherence == sum of |entries| of the density matrix minus its trace (= sum of off-diagonal moduli for a density matrix)"),
     "purity": ("toqito/state_props/purity.py", [("rho", "arr")], ["is_density(rho)"], lambda e: uf("np.real", R, tr(uf("np.linalg.matrix_power[2]", Arr, e["rho"]))), "purity == Re Tr(rho^2)"),
 }
